@@ -95,8 +95,15 @@ Definition check_split3 (st st' : state2) (c : cellkind) (k : dkind3) : N :=
     | _ => 0
     end) (in_use3 st)).
 
+(** the premise "no cell takes part in more than one merge or split of the call" *)
+Definition single_use3 (merge : bool) (st st' : state2) (c : cellkind) : bool :=
+  let p := pol3_of c in
+  if merge then forallb (fun d' => Nat.leb (length (dedup3 (map (cid3 st p) (cell3 st' p d')))) 2) (in_use3 st')
+  else forallb (fun d => Nat.leb (length (dedup3 (map (cid3 st' p) (cell3 st p d)))) 2) (in_use3 st).
+
 Definition data_checks3 (merge : bool) (cells : list cellkind) (st st' : state2) : N :=
   first_fail3 (flat_map (fun c =>
+    if negb (single_use3 merge st st' c) then [] else
     flat_map (fun k => [if merge then check_merge3 st st' c k else check_split3 st st' c k;
                         if clean3 st c k && negb (clean3 st' c k) then 5 else 0]) (kinds_bound3 st c)) cells).
 
